@@ -205,6 +205,21 @@ OkRepl(a, par, off, r) ==
             /\ \A i \in DOMAIN par :
                    r[i] = IF Rank(off[i]) < Rank(par[i]) THEN off[i] ELSE par[i]   \* ties: parent
 
+(* "mu random ones" is a statement about the distribution of the result, not about one    *)
+(* result: every individual of parents + offspring, whatever its position in the two      *)
+(* populations, is among the survivors with probability m / n (n = combined size,          *)
+(* m = min(mu, n)).  Observed over N executions on the same parents and offspring (told    *)
+(* apart by their tags): the number c of executions an individual survived is within 7     *)
+(* standard deviations of the binomial mean N m / n, i.e. (integers only)                  *)
+(*        (c n - N m)^2 <= 49 N m (n - m).                                                 *)
+(* For m = n this says c = N, for m = 0 it says c = 0.  The probability that a uniformly   *)
+(* random choice of m out of n fails the test is about 1e-9 at worst (n <= 16, N >= 400).    *)
+SurvivalOk(N, n, mu, c) ==
+    LET m == Min2(mu, n)
+        d == c * n - N * m
+    IN  /\ N * n <= 40000                      \* TLC integers are 32 bit
+        /\ d * d <= 49 * N * m * (n - m)
+
 ---------------------------------------------------------------------------
 (* C17 -- simulated annealing.  Layout produced by the SA template          *)
 (* (heuristics/sa.rs: selection::All, generation, ..., cooling, acceptance) *)
